@@ -135,6 +135,7 @@ def _judge(case, out, clock, CS):
     if case.get("decoy"):
         _decoys.loop(case["decoy"], ["prompt-%d" % k_ for k_ in range(4)])       # its breaker (threshold 1) ends up open, its cache holds permits for the same prompts
         out.label("decoy")
+        _decoys.note(out)
     fail_hi = 0        # failures (definite or ambiguous) since the last clear
     consec = 0         # consecutive definite failures
     def_fail_total = 0
